@@ -244,7 +244,7 @@ func genIndexMapping(t *rapid.T) (*mapping.IndexMappingImpl, c16Stats) {
 	for i, n := 0, rapid.IntRange(0, 2).Draw(t, "ntypes"); i < n; i++ {
 		m.AddDocumentMapping(rapid.SampledFrom([]string{"ta", "tb"}).Draw(t, "typename"), genDocMapping(t, 2, true, analyzers, dateParsers, &st))
 	}
-	m.TypeField = rapid.SampledFrom([]string{"_type", "kind"}).Draw(t, "typefield")
+	m.TypeField = rapid.SampledFrom([]string{"_type", "kind", ""}).Draw(t, "typefield")
 	m.DefaultType = rapid.SampledFrom([]string{"_default", "ta"}).Draw(t, "defaulttype")
 	m.DefaultAnalyzer = rapid.SampledFrom(analyzers).Draw(t, "defaultanalyzer")
 	m.DefaultDateTimeParser = rapid.SampledFrom(dateParsers).Draw(t, "defaultdateparser")
